@@ -178,6 +178,29 @@ def k4_display(F, S, s, c):
         S.bad("K4", "display-missing", s, "no Display impl for %s" % s)
         return
     entries = [e for e in F.ast["fmt"] if e["ctx"]["impl_self"] == s and (e["ctx"]["impl_trait"] or "").endswith("Display")]
+    if not entries and not c["params"]:
+        # a parameterless indicator may write its fixed name directly: `f.write_str("OBV")` — one sink, unconditional, a literal
+        try:
+            r0 = symex.evaluate(F, fn, symex.Policy(F, modular=False))
+        except symex.Unsupported as e:
+            S.bad("K4", "display-shape", s, "UNRECOGNISED Display::fmt of %s: %s" % (s, e), loc(fn.span))
+            return
+        calls_ = [t_ for g_ in [fn] + [h_ for h_ in F.fns if h_.kind == "Closure" and h_.path.startswith(fn.path)] for b_, t_ in g_.calls()
+                  if any("Formatter" in ((a_.get("place") or {}).get("ty") or "") for a_ in t_["args"])]
+        lv0 = leaves(r0["ret"])
+        v0 = lv0[0][1] if len(lv0) == 1 and not lv0[0][0] else None
+        lits_ = [x for x in subterms(v0) if x[0] == "constval" and x[1] == "&str"] if isinstance(v0, tuple) else []
+        for x in (subterms(v0) if isinstance(v0, tuple) else ()):
+            # a `&str` literal reached through a reborrow shows up as a reference to the opaque pointee of that constant
+            if x[0] == "ref" and isinstance(x[1], tuple) and len(x[1]) == 1 and isinstance(x[1][0], str) and x[1][0].startswith("X:constval(&str, ") and x[1][0].endswith(")"):
+                lits_.append(("constval", "&str", x[1][0][len("X:constval(&str, "):-1]))
+        import callees as _cal0
+        if len(calls_) == 1 and re.search(r"fmt::Formatter(<[^>]*>)?::write_str$", _cal0.strip_all_turbofish(_cal0.callee_name(calls_[0]["callee"]))) \
+                and isinstance(v0, tuple) and v0[0] == "ucall" and len(lits_) == 1 and lits_[0][2] == '"%s"' % NAMES.get(s):
+            S.ok("K4", s, text=NAMES.get(s), args=[])
+        else:
+            S.bad("K4", "display-text", s, "Display of %s does not write exactly the documented text \"%s\" (one unconditional write of that literal)" % (s, NAMES.get(s)), loc(fn.span))
+        return
     if len(entries) != 1:
         S.bad("K4", "display-shape", s, "expected exactly one format_args! in Display::fmt of %s, found %d" % (s, len(entries)), loc(fn.span))
         return
